@@ -32,6 +32,9 @@ class ConclusionSelector(LogicalOperator, ABC):
             vars_ = conclusion._unique_variables_.filter(lambda v: not isinstance(v.value, Literal))
             required_vars.update(vars_)
         required_output = {k: v for k, v in output.items() if k in required_vars}
+        # "concluded before" is per conclusion: another conclusion produced for (part of) the same bindings must not
+        # suppress this one.
+        required_output[None] = tuple(sorted(conclusion._id_ for conclusion in conclusions))
         if not self.concluded_before[not self._is_false_].check(required_output):
             self._conclusion_.update(conclusions)
             self.concluded_before[not self._is_false_].add(required_output)
